@@ -71,6 +71,27 @@ example : ∃ (g : G) (ops : List Op) (moves : List Move) (s : St),
   simp only [Bool.and_eq_true, decide_eq_true_eq] at hp
   exact ⟨_, _, _, s, by simp [G.WF], by simp [OpsWF], hs, hp.1, hp.2⟩
 
+/-- **Every prefix.**  The same holds after ANY accepted move sequence, finished or not: `pi` is a
+permutation, every emitted item respects the coupling, and un-routing what was emitted so far
+gives exactly the current `pi` and a list `L` such that `L` followed by the not yet executed
+operations has the input's timelines (so a pass that stops early, or a backtracked branch, never
+leaves a state from which the program could not be completed correctly). -/
+theorem C09_route_prefix (free : Nat → Bool) (g : G) (n : Nat) (ops : List Op)
+    (moves : List Move) (s : St) (hg : g.WF) (hw : OpsWF n ops)
+    (hrun : run free g (init n ops) moves = some s) :
+    PermN n s.pi ∧ (∀ e ∈ s.out, EmOK free g e) ∧
+    ∃ L, unroute (List.range n) s.out = (L, s.pi) ∧ (L ++ s.rem).Perm ops ∧
+      ∀ q, proj q (L ++ s.rem) = proj q ops := by
+  have hinv := inv_run hg hw moves (inv_init free g n ops) hrun
+  exact ⟨hinv.perm, hinv.ok, hinv.un⟩
+
+example : ∃ (g : G) (ops : List Op) (moves : List Move) (s : St),
+    g.WF ∧ OpsWF 3 ops ∧ run (fun _ => false) g (init 3 ops) moves = some s ∧ s.rem ≠ [] := by
+  obtain ⟨s, hs, hp⟩ := (Option.any_eq_true _ _).1 (show (run (fun _ => false) ⟨3, [(0, 1), (1, 2)]⟩
+    (init 3 [⟨1, [], [0, 2], [2, 2]⟩, ⟨1, [], [0, 1], [2, 2]⟩])
+    [.swap 1 2, .exec 0, .swap 1 2]).any (fun s => decide (s.rem ≠ [])) = true by decide)
+  exact ⟨_, _, _, s, by simp [G.WF], by simp [OpsWF], hs, by simpa using hp⟩
+
 /-- (3) for two-qudit operations: the two physical qudits are adjacent. -/
 theorem C09_two_qudit_adjacent (free : Nat → Bool) (g : G) (o : Op) (x y : Nat)
     (h : EmOK free g (.gate o)) (hf : free o.gid = false) (hl : o.loc = [x, y]) :
